@@ -5,7 +5,7 @@ ID = "C19"
 CRATE = "c19"
 COQ_DIR = "C19"
 COQ_DEPS = []
-PROFILES = ["debug"]
+PROFILES = ["debug", "release"]
 CORR_IMPORT = "From RlibV Require Import C19.Model C19.Spec C19.Corr."
 CASE_TYPE = "case"
 AUDIT_IMPORT = ("From Coq Require Import List NArith ZArith Bool.\nImport ListNotations.\n"
@@ -72,6 +72,19 @@ ASSUMPTIONS = ["extents, indices and offsets are unbounded N in the model (no us
 SHARD = 300
 SEARCH_MAX = 4000
 BIG = 18446744073709551615
+
+
+def for_profile(c, profile):
+    """Reading a tensor from a text with too few tokens is outside the property (the reader's end-of-input test is a
+    debug_assert: debug builds panic, release builds read garbage); those reads are kept for the debug profile only."""
+    if profile != "release":
+        return c
+    def short(o):
+        need = 1
+        for d in o[1]:
+            need *= d
+        return len(o[2].split()) < need
+    return dict(c, ops=[o for o in c["ops"] if not (o[0] == "rd" and short(o))])
 
 
 # ----------------------------------------------------------------------------- line protocol
